@@ -8,6 +8,12 @@
    RS  port hm FS              -> trace | fs               (restore_etc_hosts)
    HI  FS hop ...              -> hostshex after every hop, ';' separated   (hop = H:port:name:ip | E:port)
    SC  bits pa hma pb hmb FS   -> pcA pcB | trace | fs
+   ST  FS op ...               -> hostshex after every op, ';' separated | fs
+       op = T/port/datahex/uid/gid/mode   a temporary of that port exists already (fresh inode): left behind by anybody
+          | A/datahex                     the administrator replaces the hosts file (new inode, same owner/mode)
+          | C/k/port/hm                   a call of rewrite_etc_hosts that stops after k primitives (crash)
+          | R/port/hm                     a complete rewrite_etc_hosts
+          | S/port/hm                     restore_etc_hosts(hm, port)
    NEW port hm oldhex          -> new content hex (new_content on univ_nl old)
    MK  port                    -> marker hex *)
 let pc_str = function
@@ -71,6 +77,23 @@ let handle = function
           (start (n_of_int (int_of_string pb)) (parse_hm hmb)) (parse_fs fs) in
       Printf.sprintf "%s %s | %s | %s" (pc_str a.i_pc) (pc_str b.i_pc)
         (String.concat "," (List.map (fun (w, p) -> (if w then "B." else "A.") ^ prim_str p) tr)) (fs_str s)
+  | "ST" :: rest ->
+      let fs = parse_fs (take 6 rest) in
+      let ni x = n_of_int (int_of_string x) in
+      let op s o = match String.split_on_char '/' o with
+        | ["T"; p; d; uid; gid; mode] ->
+            let (n, s') = fs_fresh s in
+            fs_set (PTmp (ni p)) { f_data = bytes_of_hex d; f_uid = ni uid; f_gid = ni gid; f_mode = ni mode; f_ino = n } s'
+        | ["A"; d] ->
+            let (n, s') = fs_fresh s in
+            let (u, g, m) = (match fs_get PHosts s with Some f -> (f.f_uid, f.f_gid, f.f_mode) | None -> (N0, N0, n_of_int 420)) in
+            fs_set PHosts { f_data = bytes_of_hex d; f_uid = u; f_gid = g; f_mode = m; f_ino = n } s'
+        | ["C"; k; p; hm] -> let ((_, s'), _) = run_k (nat_of_int (int_of_string k)) (start (ni p) (parse_hm hm)) s in s'
+        | ["R"; p; hm] -> let ((_, s'), _) = rewrite_fs (ni p) (parse_hm hm) s in s'
+        | ["S"; p; hm] -> fst (restore_fs (ni p) (parse_hm hm) s)
+        | _ -> failwith "bad op" in
+      let (s, outs) = List.fold_left (fun (s, acc) o -> let s' = op s o in (s', hosts_hex s' :: acc)) (fs, []) (drop 6 rest) in
+      Printf.sprintf "%s | %s" (String.concat ";" (List.rev outs)) (fs_str s)
   | ["NEW"; port; hm; old] ->
       hex_of_bytes (new_content (n_of_int (int_of_string port)) (univ_nl (bytes_of_hex old)) (parse_hm hm))
   | ["MK"; port] -> hex_of_bytes (marker (n_of_int (int_of_string port)))
